@@ -785,6 +785,36 @@ func main() {
 		}
 	}
 
+	// flow-style job mappings (all jobs on ONE line, positions differ in the column only): the
+	// diagnostics of the jobs a/b do not change when unrelated jobs (another needs cycle included)
+	// are added after them, and do not vary between runs
+	{
+		fl := newLinter()
+		job := func(id, needs string) string { return id + ": {needs: [" + needs + "], runs-on: ubuntu-latest, steps: [{run: echo}]}" }
+		alone := "on: push\njobs: {" + job("a", "b") + ", " + job("b", "a") + "}\n"
+		comp := "on: push\njobs: {" + job("a", "b") + ", " + job("b", "a") + ", " + job("c", "d") + ", " + job("d", "c") + ", " + job("e", "e") + "}\n"
+		render := func(ds []diagT) []string {
+			var xs []string
+			for _, d := range ds {
+				xs = append(xs, fmt.Sprintf("%d:%d [%s] %s", d.Line, d.Col, d.Kind, d.Msg))
+			}
+			return xs
+		}
+		da, err := lintSrc(fl, alone)
+		hx.Must(err)
+		for i := 0; i < 60; i++ {
+			dc, err := lintSrc(fl, comp)
+			hx.Must(err)
+			sum.Evaluations++
+			sum.Dist["flow_style_compositions"]++
+			if strings.Join(render(da), "\n") != strings.Join(render(dc), "\n") {
+				sum.OracleFails = append(sum.OracleFails, failure{What: "flow-style jobs on one line: the diagnostics of jobs a/b change when unrelated jobs are added after them (or vary between runs)",
+					Key: "flow-style-needs-cycle", Level: "jobs", Source: comp, Part: "a,b", Alone: render(da), Composed: render(dc), AloneSrc: alone})
+				break
+			}
+		}
+	}
+
 	// K2
 	terms, efails, estats := runExprCases(hx.NewRng(*seed+2), *nexpr)
 	hx.Must(os.WriteFile(filepath.Join(*out, "cases_expr.txt"), []byte(strings.Join(terms, "\n")+"\n"), 0o644))
